@@ -1,11 +1,13 @@
 (* C18 - equivalent spellings canonicalize to the same string.
    First the variations handled by input cleaning (surrounding whitespace, tab/newline); then, in the second half of this
    file, the normal-form theorem for the ordinary web URL and its corollaries (scheme and host case, default / empty
-   port, inserted dot segments in every spelling) for every profile, the path step under repeated decoding, and the known
-   finding D24 as a refuted statement. Not proved: the query / fragment steps of repeated decoding (decided on the
-   implementation over all spellings): partial there. *)
+   port, inserted dot segments in every spelling) for every profile, the path / query / fragment steps and the whole
+   profile under repeated decoding (over parser options inside CfgRT, and for GoogleSafeBrowsing and Semantic themselves on
+   the grammar web_ok), and the known finding D24 as a refuted statement. Outside the grammars (IDNA / numeric hosts under
+   the two predefined profiles, reserved characters after decoding, non-special schemes) the statement is decided on the
+   implementation over all spellings and tied to the model by correspondence. *)
 From Verif Require Import Lib.Base Lib.Utf8 Lib.GoStr Model.Cfg Gen.Tables Gen.Options Model.Sets Model.Url Model.Host Model.Machine Model.Api Model.Canon Proofs.Cleaning.
-From Verif Require Import Proofs.RecordInv Proofs.MachineInv Proofs.HostProofs Proofs.RoundTripBase Proofs.NormalFormPhases Proofs.NormalForm Proofs.SpellingProofs Proofs.SpellingDecode Proofs.RepeatedSteps Proofs.RepeatedIdem Proofs.RepeatedExamples.
+From Verif Require Import Proofs.RecordInv Proofs.MachineInv Proofs.HostProofs Proofs.RoundTripBase Proofs.NormalFormPhases Proofs.NormalForm Proofs.SpellingProofs Proofs.SpellingDecode Proofs.RepeatedSteps Proofs.RepeatedIdem Proofs.RepeatedExamples Proofs.WebCfg Proofs.WebHost Proofs.RepeatedWeb Proofs.RepeatedWebFixed Proofs.ExperimentalProfiles.
 
 (* surrounding C0/space bytes and embedded tab/newline bytes never change the result (diagnostics off) *)
 Theorem C18_cleaning_congruence : forall idna_raw c, c_report c = false -> c_fail c = false ->
@@ -158,3 +160,45 @@ Example C18_repeated_premises_met :
   same_cres (ProfileParse idna_toy prof_rep (text_of rk1)) (ProfileParse idna_toy prof_rep (text_of rk2)) /\
   same_cres (ProfileParse idna_toy prof_rep_all (text_of rk1)) (ProfileParse idna_toy prof_rep_all (text_of rk2)).
 Proof. exact repeated_spelling_ex. Qed.
+
+(* THE TWO PREDEFINED PROFILES WITH REPEATED DECODING (Proofs/ExperimentalProfiles.v): on the grammar web_ok of ordinary
+   web URLs (see Properties/C17.v) two texts that are spellings of each other under repeated decoding (requiv: same scheme
+   and host up to case, same credentials, same port value, paths equal after dot-segment removal and full decoding, queries
+   with the same decoded pairs, fragments equal after full decoding) canonicalize to the same result under
+   GoogleSafeBrowsing and under Semantic. Oracle hypothesis: H1 only. *)
+Theorem C18_gsb_spellings : forall idna_raw k1 k2, oracle_ascii_transparent idna_raw ->
+  web_ok prof_GoogleSafeBrowsing k1 = true -> web_ok prof_GoogleSafeBrowsing k2 = true ->
+  requiv idna_raw prof_GoogleSafeBrowsing k1 k2 ->
+  same_cres (ProfileParse idna_raw prof_GoogleSafeBrowsing (text_of k1)) (ProfileParse idna_raw prof_GoogleSafeBrowsing (text_of k2)).
+Proof. exact gsb_spelling. Qed.
+Print Assumptions C18_gsb_spellings.
+
+Theorem C18_semantic_spellings : forall idna_raw k1 k2, oracle_ascii_transparent idna_raw ->
+  web_ok prof_Semantic k1 = true -> web_ok prof_Semantic k2 = true ->
+  requiv idna_raw prof_Semantic k1 k2 ->
+  same_cres (ProfileParse idna_raw prof_Semantic (text_of k1)) (ProfileParse idna_raw prof_Semantic (text_of k2)).
+Proof. exact semantic_spelling. Qed.
+Print Assumptions C18_semantic_spellings.
+
+Theorem C18_web_profile_spellings : forall idna_raw, oracle_ascii_transparent idna_raw -> forall p, prof_web p = true ->
+  forall k1 k2 a b, web_ok p k1 = true -> web_ok p k2 = true -> requiv idna_raw p k1 k2 ->
+  ProfileParse idna_raw p (text_of k1) = CUrl a -> ProfileParse idna_raw p (text_of k2) = CUrl b ->
+  same_components a b /\ Href a false = Href b false.
+Proof. exact experimental_spelling_href. Qed.
+Print Assumptions C18_web_profile_spellings.
+
+(* the parser's normal form under the weaker configuration record CfgWeb (quiet errors, trailing-slash normalisation,
+   blanks in the path / special-query / special-fragment sets): lax parsing, host functions, invalid code points,
+   Latin-1 and skip-equals stay inside the abstract host call or outside the parser *)
+Theorem C18_normal_form_web : forall idna_raw c, CfgWeb c -> forall k,
+  comps_ok c k = true -> pq c (text_of k) ->
+  (c_collapse c = false \/ forallb nonempty (removelast (k_segs k)) = true) ->
+  Parse idna_raw c (text_of k) =
+    match parseHost idna_raw c (pre_host c k) (k_host k) false with Ok _ h => PUrl (nf c k h) | Er _ e => PErr e end.
+Proof. exact normal_form_web. Qed.
+Print Assumptions C18_normal_form_web.
+
+Example C18_web_premises_met :
+  requiv idna_toy prof_GoogleSafeBrowsing wk1 wk2 /\ requiv idna_toy prof_Semantic wk1 wk2 /\
+  CfgWeb (p_cfg prof_GoogleSafeBrowsing) /\ CfgWeb (p_cfg prof_Semantic).
+Proof. exact (conj (proj1 (proj2 experimental_premises)) (conj (proj2 (proj2 experimental_premises)) (conj CfgWeb_gsb CfgWeb_sem))). Qed.
